@@ -14,14 +14,19 @@
 
    Proved for all histories: c19_sum_exact, c19_extreme_exact, c19_fresh_is_zero, c19_local_private,
    c19_local_stable, c19_for_each_all_used, c19_for_each_alive_in_bounds, c19_for_each_alive_exact; for all
-   schedules of the interleaving machine: c19_reader_bounds (on the real classes: concurrent stress monitor).
+   schedules of the interleaving machines: c19_reader_bounds (on the real classes: concurrent stress monitor) and
+   c19_recycle_race_exact (destructor of one instance racing with construction of / counting into another; on the real
+   classes: directed schedules under the deterministic scheduler + stress).  The destructor's statement order (zeroing
+   sweep, then release of the id) is the regenerated flag dtor_zero_before_release: CTModel.step CDel and the
+   machine dstep read it, so a flipped order re-opens c19_sum_exact / c19_fresh_is_zero (inv_del) and
+   c19_recycle_race_exact (g_dtor_order).
 
    History: two statements were refuted on the model of the code as it was and reproduced on the real classes -
    non-const for_each_alive read out of bounds (fixed in /repo 31db6ff) and a maxer/miner whose only sample was
    numeric_limits min/max reported an empty period (fixed in 37f7c2a).  The clamps and the `!has_result ||` disjunct
    are regenerated from the source (alive_nc_begin/end, read_accept): reverting either fix re-opens
    c19_for_each_alive_in_bounds / c19_extreme_exact. *)
-From Coq Require Import ZArith List.
+From Coq Require Import ZArith List Bool Arith Lia.
 Require Import Verif.Conc.Machine.
 Require Import Verif.Gen.Gen_counter Verif.CT.CTModel Verif.CT.CTProofs.
 Import ListNotations.
@@ -105,7 +110,31 @@ Theorem c19_reader_bounds : forall slots prog x, length prog = length slots -> n
 Proof. exact ct_reader_bounds. Qed.
 Print Assumptions c19_reader_bounds.
 
+(* Destruction of one counter racing with the construction of ANOTHER one: every interleaving of
+   ~CompactEnumerableThreadLocal of instance xid (zeroing sweep over n lines one store at a time, then release of the
+   id - the order of the source) with a thread that constructs a new instance (pop of the LIFO allocator) and counts
+   into its own line: at every moment the new instance holds exactly what its owner counted, whether or not it
+   recycled xid, for every content of xid's column and every free list. *)
+Theorem c19_recycle_race_exact : forall n xid kb m0 a vs x, (kb < n)%nat -> dstart_ok n xid m0 a ->
+  reachable dst (dstep n xid kb) (dinit m0 a vs) x ->
+  forall y, d_y x = Some y -> csum (dm x y) n = d_added x.
+Proof. exact ct_recycle_exact. Qed.
+Print Assumptions c19_recycle_race_exact.
+
 (* ---- non-vacuity ---- *)
+(* 3 lines, dirty column of instance 0, the other thread owns line 2: it constructs after the release and recycles id 0 *)
+Example c19_recycle_run :
+  let m0 := fun j k => if Nat.eqb j 0 && Nat.ltb k 3 then 7%Z else 0%Z in
+  let a := {| nxt := 1; fre := [] |} in
+  let x := Machine.run dst (dstep 3 0 2) (dinit m0 a [5; 6]%Z) [0; 0; 0; 0; 1; 1; 1]%nat in
+  dstart_ok 3 0 m0 a /\ d_y x = Some 0%nat /\ d_rel x = true /\ (d_added x, csum (dm x 0) 3) = (11, 11)%Z.
+Proof.
+  cbv zeta. split; [|vm_compute; repeat split].
+  unfold dstart_ok; cbn [nxt fre In]. split; [intros ? []|]. split; [constructor|]. split; [lia|]. split; [tauto|]. split.
+  - intros i [[]|H] k. destruct i; [lia|reflexivity].
+  - intros i k H. destruct i; [|reflexivity]. cbn [Nat.eqb andb]. destruct (Nat.ltb_spec k 3); [lia|reflexivity].
+Qed.
+
 Example c19_reader_run :
   let x := Machine.run rst rstep (rinit [0; 0]%Z [[1; 2]; [5]]%Z) [2; 0; 1; 2; 0]%nat in
   r_started x = true /\ r_pos x = length (r_slots x) /\ (r_lo x, r_acc x, SZ (r_slots x)) = (0, 5, 8)%Z.
